@@ -1,1 +1,6 @@
+import GoldModel.Drive.Common
+import GoldModel.Drive.Sym
+import GoldModel.Drive.SymSpec
+import GoldModel.Lemmas.SymTab
 import GoldModel.Model.SymTab
+import GoldModel.Props.C18
